@@ -337,6 +337,32 @@ def gen_cases(rng, tier):
         c["aff"] = [[float((i == j) * 2 + (j == cc - 1) * i) for j in range(cc)] for i in range(r)]
         c.update(kind='bad-affine', code=_case_letters(rng, rng.choice(CODES48)) if rng.random() < 0.8 else rng.choice(["RAQ", "SS", "lrap"]))
         cases.append(c)
+    # --- error conditions combined with a request that is a NO-OP (the code equals the orientation the affine already
+    #     has) and with its mirror image: a short-cut for "nothing to do" must not skip the checks.  Systematic:
+    #     every one of the 48 orientations x {0-, 1-, 2-D arrays, non-4x4 affines} x {upper, lower case}.
+    for (p, sg) in orients:
+        aff, _k = _affine(rng, p, sg, 0)
+        same = closest_axes([[Fraction(aff[i][j]) for j in range(3)] for i in range(3)])
+        assert same in CODES48
+        for nd in (0, 1, 2):
+            for code in (same, same.lower()):
+                sh = [rng.choice([1, 2, 3]) for _ in range(nd)]
+                cases.append({"kind": 'low-dim-noop-%dD' % nd, "shape": sh, "data": list(range(3, 3 + math.prod(sh))),
+                              "dtype": rng.choice(['int64', 'float64', 'int16']), "layout": 'C', "aff": aff, "code": code})
+        shapes = [(3, 3), (4, 3), (3, 4), (5, 5), (4, 5), (5, 4), (3, 5)]
+        rng.shuffle(shapes)
+        for (r, cc) in shapes[:3 if tier != 'thorough' else 7]:
+            big = [[(aff[i][j] if i < 4 and j < 4 else float(i == j)) for j in range(5)] for i in range(5)]
+            c = _err_base(rng)
+            c["aff"] = [row[:cc] for row in big[:r]]
+            c.update(kind='bad-affine-noop', code=same if rng.random() < 0.5 else same.lower())
+            cases.append(c)
+        # a 3-D array whose request is a no-op but whose code is spelled with a wrong / repeated letter
+        for bad in (same[:2], same + same[0], same[0] + same[0] + same[2], same[:2] + 'X'):
+            c = _err_base(rng)
+            c["aff"] = aff
+            c.update(kind='bad-code-near-noop', code=bad if rng.random() < 0.5 else bad.lower())
+            cases.append(c)
     return cases
 
 
